@@ -150,10 +150,10 @@ impl PathProp {
         let mut o = GenOpts { max_iters: if big { 400 } else { 200 }, min_frac: 0.002, ..Default::default() };
         match self.id {
             "C01" => {
-                o.families = vec!["start_in_obstacle", "start_in_obstacle", "goal_overlap", "goal_overlap", "goal_invalid", "balls", "shell_door", "thin_wall", "open", "zero_weight", "zero_weight"];
+                o.families = vec!["start_in_obstacle", "start_in_obstacle", "goal_overlap", "goal_overlap", "goal_invalid", "balls", "shell_door", "thin_wall", "open", "zero_weight", "zero_weight", "workspace", "workspace"];
             }
             "C02" => {
-                o.families = vec!["open", "balls", "shell_door", "zero_weight"];
+                o.families = vec!["open", "balls", "shell_door", "zero_weight", "workspace"];
                 o.min_frac = 0.01;
             }
             "C03" => {
@@ -173,7 +173,7 @@ impl PathProp {
                 o.min_frac = 0.01;
             }
             "C06" => {
-                o.families = vec!["sealed_goal", "sealed_goal", "sealed_start", "goal_invalid", "thin_wall", "thin_wall", "balls", "open", "shell_door", "zero_weight", "sealed_by_bounds"];
+                o.families = vec!["sealed_goal", "sealed_goal", "sealed_start", "goal_invalid", "thin_wall", "thin_wall", "balls", "open", "shell_door", "zero_weight", "sealed_by_bounds", "workspace"];
                 o.max_iters = if big { 300 } else { 120 };
             }
             _ => {}
